@@ -373,7 +373,7 @@ pub fn run(thorough: bool, seed: u64, driver: &str, rep: &mut Report) {
             }
         }
         // ---------------- compare ----------------
-        if ti % 4 == 0 && leaves.len() >= 4 && all_len {
+        if ti % 2 == 0 && leaves.len() >= 4 && all_len {
             let mut other = t.clone();
             other.for_each_mut(&mut |x, _, _| rng.shuffle(&mut x.kids), true, 0);
             // regraft to change some splits
@@ -386,6 +386,20 @@ pub fn run(thorough: bool, seed: u64, driver: &str, rep: &mut Report) {
                     }
                 }
             }
+            // ... and the SAME unrooted tree rooted on another edge (the reference re-rooted on the branch above its first
+            // grandchild, a zero-length branch closing the old root): identical splits, so every distance is zero
+            let mut cands = vec![o2];
+            if t.kids.len() == 2 && t.kids[0].kids.len() >= 2 {
+                let a = &t.kids[0];
+                let mut b = t.kids[1].clone();
+                b.len = match (b.len, a.len) { (Some(x), Some(y)) => Some(x + y), _ => None };
+                let mut rest: Vec<Rose> = a.kids[1..].to_vec();
+                rest.push(b);
+                let x = Rose { name: a.name.clone(), len: Some(0.0), comment: None, kids: rest };
+                cands.push(Rose { name: t.name.clone(), len: None, comment: None, kids: vec![a.kids[0].clone(), x] });
+                rep.count("compare:rerooted-copy-of-the-reference");
+            }
+            for o2 in cands {
             if rose_leafset(&o2) == rose_leafset(&t) && o2.leaf_names().iter().all(|n| n.is_some()) {
                 let f2 = tmp(&dir, &mut k, &o2.newick());
                 let r = run_cli(&["compare", &file, &f2]);
@@ -414,6 +428,11 @@ pub fn run(thorough: bool, seed: u64, driver: &str, rep: &mut Report) {
                     reqs.push("sp\tcmp".into());
                     pend.push(Some(Pend { ctx: format!("{ctx0}\ncompared file: {}\nphylotree compare REF CMP", o2.newick()), cli_tree: None, cli_failed: false, kind: "cmp", expect_line: Some(format!("{} {} {} {}", cols[5], cols[6], cols[7], cols[8])) }));
                 }
+                // identical splits: nothing differs, whatever the rooting
+                if sa.len() == common && sb.len() == common && cols.len() == 9 && (cols[5] != "0" || cols[6] != "0") && sa.len() > 0 {
+                    rep.oracle("compare", "nonzero-rf-for-identical-splits", &format!("{ctx0}\ncompared file: {}\nphylotree compare REF CMP", o2.newick()), &r.stdout);
+                }
+            }
             }
         }
         // ---------------- collapse ----------------
